@@ -976,6 +976,12 @@ namespace
       case DW_OP_GNU_convert:		// XXX CU-relative offset to DIE
       case DW_OP_GNU_reinterpret:	// XXX CU-relative offset to DIE
       case DW_OP_GNU_parameter_ref:	// XXX CU-relative offset to DIE
+      case DW_OP_convert:		// XXX CU-relative offset to DIE
+      case DW_OP_reinterpret:		// XXX CU-relative offset to DIE
+      case DW_OP_addrx:
+      case DW_OP_constx:
+      case DW_OP_GNU_addr_index:
+      case DW_OP_GNU_const_index:
 	return single_constant ({op->number, &dec_constant_dom});
 
       case DW_OP_const1s:
@@ -992,6 +998,9 @@ namespace
       case DW_OP_bit_piece:
       case DW_OP_GNU_regval_type:
       case DW_OP_GNU_deref_type:
+      case DW_OP_regval_type:
+      case DW_OP_deref_type:
+      case DW_OP_xderef_type:
 	return two_constants ({op->number, &dec_constant_dom},
 			      {op->number2, &dec_constant_dom});
 
@@ -1000,6 +1009,7 @@ namespace
 			      signed_cst (op->number2, &dec_constant_dom));
 
       case DW_OP_GNU_implicit_pointer:
+      case DW_OP_implicit_pointer:
 	{
 	  Dwarf_Die die;
 	  if (dwarf_getlocation_die
@@ -1027,6 +1037,7 @@ namespace
 	}
 
       case DW_OP_GNU_entry_value:
+      case DW_OP_entry_value:
 	{
 	  Dwarf_Attribute attr;
 	  if (dwarf_getlocation_attr
@@ -1038,6 +1049,7 @@ namespace
 	}
 
       case DW_OP_GNU_const_type:
+      case DW_OP_const_type:
 	{
 	  Dwarf_Attribute *attr = const_cast <Dwarf_Attribute *> (&at);
 	  Dwarf_Die die;
